@@ -200,6 +200,23 @@ theorem pump_keys (k : Nat → Nat) (queue : List (List Nat)) :
           exact hkq0
         · cases hp
 
+theorem pumpB_keys (k : Nat → Nat) (free : Bool) (queue : List (List Nat)) (members : List Nat)
+    (nxt : Option Nat) (w : WSt) (hm : members.Nodup) (hq : ∀ l ∈ queue, l.Nodup) (hkm : KD k members)
+    (hkq : ∀ l ∈ queue, KD k l) (hp : pumpB free members queue nxt = some w) :
+    KD k w.members ∧ (∀ l ∈ w.queue, KD k l) ∧ (∀ j, w.job = some j → KD k j.listing) ∧
+    altOk (members.map k) (w.notes.map (keyNote k)) = true ∧
+    viewOf (members.map k) (w.notes.map (keyNote k)) = w.members.map k := by
+  cases free with
+  | true =>
+    simp only [pumpB, if_true] at hp
+    exact pump_keys k queue members nxt w hm hq hkm hkq hp
+  | false =>
+    simp only [pumpB, Bool.false_eq_true, if_false] at hp
+    split at hp
+    · injection hp with hp; subst hp
+      exact ⟨hkm, hkq, by simp, by simp [altOk], by simp [viewOf]⟩
+    · cases hp
+
 /-! ### a state -/
 
 structure KInv (k : Nat → Nat) (s : St) : Prop where
@@ -275,13 +292,13 @@ theorem wake_keys {k : Nat → Nat} {s1 s2 : St} {nxt : Option Nat} {ns : List N
   | none =>
     rw [hjob] at h
     simp only at h
-    cases hp : pump s1.members s1.queue nxt with
+    cases hp : pumpB s1.lists.isEmpty s1.members s1.queue nxt with
     | none => rw [hp] at h; cases h
     | some w =>
       rw [hp] at h
       simp only [Option.map_some] at h
       injection h with h; injection h with h1 h2; subst h1; subst h2
-      obtain ⟨g1, g2, g3, g4, g5⟩ := pump_keys k s1.queue s1.members nxt w hm hq hk.km hk.kq hp
+      obtain ⟨g1, g2, g3, g4, g5⟩ := pumpB_keys k _ s1.queue s1.members nxt w hm hq hk.km hk.kq hp
       exact ⟨⟨g1, g2, g3⟩, g4, g5⟩
 
 /-- after a recipe callback that queued at most one child list, key-distinct -/
@@ -331,7 +348,7 @@ theorem ret_keys {k : Nat → Nat} {s s' : St} {nxt : Option Nat} {ns : List Not
       split at hn
       · obtain ⟨f1, _, _⟩ := finishJob_spec s.members j.listing _ h0.wok.mnd g1 g2
         obtain ⟨k1, k2, k3⟩ := finishJob_keys k s.members j.listing _ h0.wok.mnd g1 g2 g3 hk.km hkl
-        cases hp : pump (finishJob s.members j.listing (if found then j.got ++ [n] else j.got)).1
+        cases hp : pumpB s.lists.isEmpty (finishJob s.members j.listing (if found then j.got ++ [n] else j.got)).1
             s.queue nxt with
         | none => rw [hp] at hn; cases hn
         | some w =>
@@ -339,7 +356,7 @@ theorem ret_keys {k : Nat → Nat} {s s' : St} {nxt : Option Nat} {ns : List Not
           simp only [Option.map_some, Option.some.injEq, Prod.mk.injEq] at hn
           obtain ⟨hn1, hn2⟩ := hn
           subst hn1; subst hn2
-          obtain ⟨p1, p2, p3, p4, p5⟩ := pump_keys k s.queue _ nxt w f1 h0.wok.qnd k1 hk.kq hp
+          obtain ⟨p1, p2, p3, p4, p5⟩ := pumpB_keys k _ s.queue _ nxt w f1 h0.wok.qnd k1 hk.kq hp
           refine ⟨⟨p1, p2, p3⟩, ?_, ?_⟩
           · rw [List.map_append, altOk_append, k2, k3, p4]; rfl
           · rw [List.map_append, viewOf_append, k3, p5]
@@ -358,6 +375,12 @@ theorem ret_keys {k : Nat → Nat} {s s' : St} {nxt : Option Nat} {ns : List Not
             exact hkl
           · cases hn
 
+/-- a step that touched only the listings, as the Member-equality consumer sees it: nothing -/
+theorem lists_only_keys {k : Nat → Nat} {s s' : St} (hk : KInv k s) (lo : ListsOnly s s') :
+    KStep k s s' [] :=
+  ⟨⟨by rw [lo.members]; exact hk.km, by rw [lo.queue]; exact hk.kq, by rw [lo.job]; exact hk.kj⟩,
+    by simp [altOk], by simp [viewOf, lo.members]⟩
+
 /-- one operation, as the Member-equality consumer sees it — provided no two member znodes
     carry equal Members in the tree the operation starts from -/
 theorem next_keys {cfg : Cfg} {s s' : St} {op : Op} {ns : List Note} (h0 : Inv0 s)
@@ -371,7 +394,7 @@ theorem next_keys {cfg : Cfg} {s s' : St} {op : Op} {ns : List Note} (h0 : Inv0 
     · simp only [Option.some.injEq, Prod.mk.injEq] at hn
       obtain ⟨h1, h2⟩ := hn
       subst h1; subst h2
-      obtain ⟨hmem, hque, hjob, _, _, _, _⟩ := treeStep_fields s o
+      obtain ⟨hmem, hque, hjob, _, _, _, _, _⟩ := treeStep_fields s o
       refine ⟨⟨by rw [hmem]; exact hk.km, by rw [hque]; exact hk.kq, by rw [hjob]; exact hk.kj⟩,
         by simp [altOk], by simp [viewOf, hmem]⟩
     · cases hn
@@ -433,6 +456,38 @@ theorem next_keys {cfg : Cfg} {s s' : St} {op : Op} {ns : List Note} (h0 : Inv0 
   | ret nxt =>
     simp only [next] at hn
     exact ret_keys h0 hk hn
+  | list nxt =>
+    simp only [next] at hn
+    split at hn
+    · cases hl : listStep cfg s nxt with
+      | none => rw [hl] at hn; cases hn
+      | some s1 =>
+        rw [hl] at hn
+        simp only [Option.map_some, Option.some.injEq, Prod.mk.injEq] at hn
+        obtain ⟨h1, h2⟩ := hn
+        subst h1; subst h2
+        exact lists_only_keys hk (listStep_shape hl).1
+    · cases hn
+  | lserve i =>
+    simp only [next] at hn
+    split at hn
+    · cases hl : lserveStep s i with
+      | none => rw [hl] at hn; cases hn
+      | some s1 =>
+        rw [hl] at hn
+        simp only [Option.map_some, Option.some.injEq, Prod.mk.injEq] at hn
+        obtain ⟨h1, h2⟩ := hn
+        subst h1; subst h2
+        exact lists_only_keys hk (lserveStep_shape hl).1
+    · cases hn
+  | lret i nxt =>
+    simp only [next] at hn
+    split at hn
+    · rcases lretStep_cases hn with ⟨lo, _, hns⟩ | ⟨s1, lo, hw⟩
+      · subst hns
+        exact lists_only_keys hk lo
+      · exact after_callback_keys h0 hk lo.members lo.job (Or.inl lo.queue) hw
+    · cases hn
 
 /-! ### operation lists -/
 
